@@ -37,6 +37,14 @@ pub struct ParentCfg {
     /// PATH as raw bytes when it is not valid UTF-8 (overrides the PATH entry of `env`)
     #[serde(default)]
     pub path_raw: Option<Vec<u8>>,
+    /// bit i set: the parent runs with its standard descriptor i closed (a daemon that did not
+    /// reopen them): the library's own pipes then land on the numbers 0..2
+    #[serde(default)]
+    pub closed_std: u8,
+    /// files the caller opens get the lowest free number, as open() does (so 0..2 when those are
+    /// closed); otherwise they stay above 2 and the library's own descriptors get the low numbers
+    #[serde(default)]
+    pub files_low: bool,
 }
 
 #[derive(Serialize, Deserialize, Clone, Debug)]
@@ -110,6 +118,8 @@ pub fn default_parent() -> ParentCfg {
         sigpipe: Disp::Ignore,
         env: vec![("PATH".into(), "/bin".into()), ("HOME".into(), "/work".into()), ("LANG".into(), "C".into())],
         path_raw: None,
+        closed_std: 0,
+        files_low: false,
     }
 }
 
